@@ -12,6 +12,9 @@ use rand::Rng;
 use serde_json::{json, Value};
 
 async fn run(mut sim: Sim, seed: u64, lossy: bool) -> Result<Value, String> {
+    // explicit dials are never blocked by the dialer's own connection limit (0: always "reached"),
+    // and a dial that answers Ok has registered the peer
+    let limit = [None, None, Some(0), Some(1)][sim.rng.gen_range(0..4)];
     let o = Opts {
         nodes: 3,
         ops: 0,
@@ -37,7 +40,11 @@ async fn run(mut sim: Sim, seed: u64, lossy: bool) -> Result<Value, String> {
             sim.run.register_node(sim::peer_id_of(key), 100 + ident as i64);
             continue;
         }
-        let i = sim.add_node(node_cfg(*key, &o)).map_err(|e| e.to_string())?;
+        let mut cfg = node_cfg(*key, &o);
+        if ident == roles[0] {
+            cfg.config.max_concurrent_connections = limit; // the dialer only
+        }
+        let i = sim.add_node(cfg).map_err(|e| e.to_string())?;
         node_of_identity[ident] = i;
         next += 1;
     }
